@@ -105,6 +105,9 @@ func (conn *slConn) run(a []string) (string, string) {
 	ctx, cancel := context.WithTimeout(context.Background(), 10*time.Second)
 	defer cancel()
 	conn.script, conn.pos, conn.sent, conn.cancel = script, 0, nil, cancel
+	if driveScript != nil {
+		conn.script = driveScript
+	}
 	if conn.t == nil {
 		conn.recv = make([]byte, 512)
 		var closeT func()
@@ -141,6 +144,9 @@ func (conn *slConn) run(a []string) (string, string) {
 		}()
 		return t.SendCommand(ctx, c)
 	}()
+	if useUDP {
+		udpSettle()
+	}
 	switch {
 	case res == "panic":
 	case err == nil:
